@@ -675,7 +675,23 @@ int32_t tls13ValidateSessionParams(ssl_t *ssl,
         goto out_handshake_failure;
     }
 
+    /* A ticket is good for the lifetime that was sealed into it together
+       with its issue time; after that (or if the clock does not make sense
+       relative to the issue time) the session must not be resumed. */
+    if (MATRIX_IS_SERVER(ssl))
+    {
+        psTime_t now;
+        int32 ageMsecs;
 
+        psGetTime(&now, ssl->userPtr);
+        ageMsecs = psDiffMsecs(params->timestamp, now, ssl->userPtr);
+        if (ageMsecs < 0 ||
+            (uint32_t) (ageMsecs / 1000) > params->ticketLifetime)
+        {
+            psTraceErrr("Decrypted session: ticket lifetime exceeded\n");
+            goto out_handshake_failure;
+        }
+    }
 
     return PS_SUCCESS;
 
